@@ -84,8 +84,8 @@ def tlc_mc(spec, cfg, workdir, expect="pass", workers=16, timeout=900, heap="6g"
     m = _GEN.findall(out)
     gen, dist = (int(m[-1][0]), int(m[-1][1])) if m else (0, 0)
     completed = "Model checking completed. No error has been found." in out
-    violated = ("is violated" in out) or ("Error: Invariant" in out) or ("Error: Action property" in out) \
-        or ("Error: Temporal properties were violated" in out) or ("Error: Deadlock reached" in out)
+    violated = (not completed) and (("is violated" in out) or ("is equal to FALSE" in out)
+                                    or ("Temporal properties were violated" in out) or ("Deadlock reached" in out))
     if expect == "pass":
         if not completed:
             raise Infra("model configuration %s/%s did not pass (the specification is wrong, not the code):\n%s"
